@@ -1,5 +1,6 @@
 SPECIFICATION GenSpec
 CONSTANTS N = 4
+ GenFamily = "single"
  V = 3
  DropVerify = "none"
  SkipPropMatch = FALSE
@@ -9,5 +10,8 @@ CONSTANTS N = 4
  SignedGater = FALSE
  InnerProofPolicy = "reject"
  VCBatchPolicy = "none"
+ AggBatchFor = "none"
+ MemoVerifier = FALSE
+ ReplayPolicy = "admit"
 INVARIANTS Emit
 CHECK_DEADLOCK FALSE
